@@ -209,6 +209,15 @@ def heartbeat(r, mode, ndev, src, cold, variant):
     return case(cfg(mode, ndev, src, cold=cold, hb=True), timeline(ev))
 
 
+def heartbeat_onopen(r, mode, ndev, src):
+    """the application configures the heartbeat from its OnOpen callback (period 5 s / 7 s, small offset): the schedule is anchored at the
+    moment of Open(), whatever the clock reads then (seeds C13-19, C12-19)"""
+    iv, off = r.choice([(5000, 1000), (7000, 0), (4000, 10)])
+    ev = [(t, ['P']) for t in (0, 1, 2, 100, 200, 201, 202, 203, 460, 461)]
+    ev += [(461 + k * 1250, ['P']) for k in range(1, 14)]
+    return case(cfg(mode, ndev, src, cold=True, hb=True, extra='onopen=%d,%d' % (iv, off)), timeline(ev))
+
+
 def heartbeat_long_gap(r, mode, ndev, src, cold, gap, variant):
     """heartbeat across a gap of `gap` ms (< 2^32) in which nothing is called, then polls; crossing the 32-bit wrap for origins
     shortly below 2^32 (the 32-bit build's N2kMillis64() only notices a wrap when it is called)"""
@@ -330,6 +339,7 @@ def directed(seed, tier):
             add('tp-tx-' + v, tp_send(r, r.choice([1, 2]), r.choice([1, 2, 3]), r.choice([0, 22, 100]), v))
         add('hb-warm-long', heartbeat(r, r.choice([1, 2]), r.choice([1, 2, 3]), r.choice([0, 22, 100]), False, 'long'))
         add('hb-cold', heartbeat(r, r.choice([1, 2]), r.choice([1, 2]), r.choice([0, 22]), True, 'short' if not thorough else 'long'))
+        add('hb-onopen', heartbeat_onopen(r, r.choice([1, 2]), r.choice([1, 2]), r.choice([0, 22])))
         for v in (['99', '100', '101', '0', '150'] if thorough else ['99', '100', '101']):
             add('slots-fp-' + v, slot_eviction(r, r.choice([2, 2, 0, 3, 4, 1]), r.choice([1, 2]), v))
         for age in ([99, 100, 101] if thorough else [r.choice([99, 100, 101])]):
